@@ -20,16 +20,36 @@
 (*  redirect auth/api/iam/user.go handleUserLanding                        *)
 (*             GetAndDelete ; [session, metadata, ...]                     *)
 (*  s2snonce auth/api/iam/s2s_vptoken.go validateS2SPresentationNonce      *)
-(*             Get ; Put (unconditional) ; [VerifyVP, ...]                 *)
+(*             Lock ; Get ; Put (unconditional) ; Unlock ; [VerifyVP, ...] *)
 (*  dpopjti  auth/api/iam/dpop.go ValidateDPoPProof                        *)
-(*             Get ; [miss] Put                                            *)
+(*             Lock ; Get ; [miss] Put ; Unlock                            *)
 (*  preauth  vcr/issuer/openid.go HandleAccessTokenRequest over            *)
 (*           openid_store.go: Exists ; Get ; ... ; Delete                  *)
 (*                                                                         *)
 (* storage/session.go: GetAndDelete(k) == Get(k) ; [hit] Delete(k), i.e.   *)
 (* two primitives.  The boolean constants below name each place where the  *)
-(* code (FALSE, descriptive) deviates from what the property needs (TRUE,  *)
-(* prescriptive: one indivisible primitive).                               *)
+(* code deviated (FALSE) from what the property needs (TRUE, prescriptive: *)
+(* one indivisible step).  Three are repaired in the code (one mutex per   *)
+(* site around lookup and burn: F6-code .. F6-redirect, F6-s2snonce,       *)
+(* F6-dpopjti), so the descriptive configurations set them TRUE as well;   *)
+(* AtomicPreAuthCode is still FALSE there (F6-preauth, open).              *)
+(* The configurations that GENERATE schedules and that                     *)
+(* validate recorded traces keep them FALSE (permissive variant, one       *)
+(* action per primitive): the interleaved schedules are the ones on which  *)
+(* code without the serialisation shows the double success, and the gated  *)
+(* store records the two primitives of a serialised step separately.       *)
+(*                                                                         *)
+(* Request context.  "Requests presenting the same value" need not be      *)
+(* copies of one another: the value may arrive in another legal request    *)
+(* (another unauthenticated client_id / scope, with or without a DPoP      *)
+(* header, on another tenant path, inside another presentation or proof,   *)
+(* with a wallet_nonce, ...).  ctx[r] names the context of request r: "c0" *)
+(* is the context the secret was issued for / first used in, "c1" any      *)
+(* other context in which the request is still acceptable on its own.  The *)
+(* property speaks about the VALUE, so the entry must be found under the   *)
+(* value alone (KeyedByValueOnly = TRUE, what the code does).  The         *)
+(* deviation KeyedByValueOnly = FALSE (the cache key / store partition     *)
+(* depends on the context as well) gives every context its own entry.     *)
 (***************************************************************************)
 EXTENDS Naturals, FiniteSets, Sequences, TLC
 
@@ -42,6 +62,8 @@ CONSTANTS
     AtomicDPoPJti,         \* TRUE: DPoP jti check-and-store is one indivisible step
     AtomicPreAuthCode,     \* TRUE: pre-authorized code lookup-and-delete is one indivisible step
     MarkerOutlivesWindow,  \* TRUE: a "used" marker lives at least as long as the secret it guards is valid
+    KeyedByValueOnly,      \* TRUE: the entry is looked up under the secret value alone; FALSE: under (request context, value)
+    MaxAlt,                \* at most this many requests present the value in a context other than the original one
     SymBreak,              \* TRUE: only one representative per permutation of equal requests (generation)
     Hist                   \* TRUE: record the history (behaviour generation)
 
@@ -69,10 +91,19 @@ Flavours(k) == CASE k = "code"     -> {"good", "bad", "early"}
                  [] k = "preauth"  -> {"good"}
 Rank(f) == CASE f = "good" -> 0 [] f = "bad" -> 1 [] f = "early" -> 2
 
+(* Contexts: the sites whose request carries something besides the value.  *)
+(* (redirect: the landing URL carries only the token; preauth: the handler *)
+(* receives only the code.)                                                *)
+AllCtx  == {"c0", "c1"}
+Ctxs(k) == IF k \in {"redirect", "preauth"} THEN {"c0"} ELSE AllCtx
+\* symmetry class of a request: flavour and context
+CRank(f, c) == 2 * Rank(f) + (IF c = "c0" THEN 0 ELSE 1)
+
 VARIABLES
     kind,      \* the call site of this behaviour (constant after Init)
     flav,      \* flavour of every request (constant after Init)
-    cache,     \* "present" / "absent": the cache entry under the secret's key
+    ctx,       \* context of every request (constant after Init)
+    cache,     \* per slot "present" / "absent": the cache entry under the secret's key (one slot unless the key depends on the context)
     pc,        \* per request: control point
     seen,      \* per request: did its (last) Get hit
     out,       \* per request: "pending" / "ok" / "refused"
@@ -81,35 +112,43 @@ VARIABLES
     lateTick,  \* per request: it arrived after the validity window had elapsed
     hist
 
-vars == <<kind, flav, cache, pc, seen, out, ticks, lateRef, lateTick, hist>>
-view == <<kind, flav, cache, pc, seen, out, ticks, lateRef, lateTick>>
+vars == <<kind, flav, ctx, cache, pc, seen, out, ticks, lateRef, lateTick, hist>>
+view == <<kind, flav, ctx, cache, pc, seen, out, ticks, lateRef, lateTick>>
 
 Log(e) == hist' = IF Hist THEN Append(hist, e) ELSE hist
 
-Sorted(f) == \A i, j \in 1..Len(ReqSeq) : i < j => Rank(f[ReqSeq[i]]) <= Rank(f[ReqSeq[j]])
+Sorted(f, c) == \A i, j \in 1..Len(ReqSeq) : i < j => CRank(f[ReqSeq[i]], c[ReqSeq[i]]) <= CRank(f[ReqSeq[j]], c[ReqSeq[j]])
+
+\* the slot of the cache a request looks into / writes to
+Slot(r)   == IF KeyedByValueOnly THEN "c0" ELSE ctx[r]
+Has(r)    == cache[Slot(r)] = "present"
+Put(r, v) == cache' = [cache EXCEPT ![Slot(r)] = v]
 
 Init ==
     /\ kind \in Kinds
     /\ flav \in [Reqs -> Flavours(kind)]
-    /\ SymBreak => Sorted(flav)
-    /\ cache = IF kind \in MarkerKinds THEN "absent" ELSE "present"   \* the secret has been issued / never used
+    /\ ctx \in [Reqs -> Ctxs(kind)]
+    /\ Cardinality({r \in Reqs : ctx[r] # "c0"}) <= MaxAlt
+    /\ SymBreak => Sorted(flav, ctx)
+    \* the secret has been issued (in context c0) / never used
+    /\ cache = [c \in AllCtx |-> IF kind \in MarkerKinds \/ c # "c0" THEN "absent" ELSE "present"]
     /\ pc = [r \in Reqs |-> "idle"]
     /\ seen = [r \in Reqs |-> FALSE]
     /\ out = [r \in Reqs |-> "pending"]
     /\ ticks = 0
     /\ lateRef = [r \in Reqs |-> FALSE]
     /\ lateTick = [r \in Reqs |-> FALSE]
-    /\ hist = IF Hist THEN <<[a |-> "Init", kind |-> kind, flav |-> flav]>> ELSE <<>>
+    /\ hist = IF Hist THEN <<[a |-> "Init", kind |-> kind, flav |-> flav, ctx |-> ctx]>> ELSE <<>>
 
 Done(r)  == pc[r] = "done"
 \* some attempt that presented the secret has been answered with a refusal
 Burnt    == \E q \in Reqs : Done(q) /\ out[q] = "refused"
 
-\* symmetry breaking: among requests of equal flavour the one that comes first in ReqSeq arrives first
+\* symmetry breaking: among requests of equal flavour and context the one that comes first in ReqSeq arrives first
 CanArrive(r) ==
     \/ ~SymBreak
     \/ \A i, j \in 1..Len(ReqSeq) :
-          (ReqSeq[j] = r /\ i < j /\ flav[ReqSeq[i]] = flav[r]) => pc[ReqSeq[i]] # "idle"
+          (ReqSeq[j] = r /\ i < j /\ flav[ReqSeq[i]] = flav[r] /\ ctx[ReqSeq[i]] = ctx[r]) => pc[ReqSeq[i]] # "idle"
 
 \* the request's first primitive fixes its position in real time
 Arrive(r) ==
@@ -134,32 +173,32 @@ GadGet(r) ==
     /\ kind \in GadKinds /\ ~AtomicGetAndDelete
     /\ flav[r] \in {"good", "bad"}
     /\ Arrive(r)
-    /\ seen' = [seen EXCEPT ![r] = (cache = "present")]
-    /\ IF cache = "present"
+    /\ seen' = [seen EXCEPT ![r] = Has(r)]
+    /\ IF Has(r)
          THEN Goto(r, "gad") /\ UNCHANGED out
          ELSE Goto(r, Epilogue(kind)) /\ Result(r, "refused")      \* ErrNotFound: "invalid ... code" etc.
-    /\ Log([a |-> "GadGet", r |-> r, op |-> "get", hit |-> (cache = "present")])
-    /\ UNCHANGED <<kind, flav, cache, ticks>>
+    /\ Log([a |-> "GadGet", r |-> r, op |-> "get", hit |-> Has(r)])
+    /\ UNCHANGED <<kind, flav, ctx, cache, ticks>>
 
 \* s.underlying.Delete(key), then the checks of the handler on the value that was read
 GadDel(r) ==
     /\ kind \in GadKinds /\ pc[r] = "gad"
-    /\ cache' = "absent"
+    /\ Put(r, "absent")
     /\ Goto(r, Epilogue(kind)) /\ Result(r, Verdict(r))
     /\ Log([a |-> "GadDel", r |-> r, op |-> "delete"])
-    /\ NotArriving /\ UNCHANGED <<kind, flav, seen, ticks>>
+    /\ NotArriving /\ UNCHANGED <<kind, flav, ctx, seen, ticks>>
 
 \* what the property needs: lookup and removal in one step
 GadAtomic(r) ==
     /\ kind \in GadKinds /\ AtomicGetAndDelete
     /\ flav[r] \in {"good", "bad"}
     /\ Arrive(r)
-    /\ seen' = [seen EXCEPT ![r] = (cache = "present")]
-    /\ cache' = "absent"
+    /\ seen' = [seen EXCEPT ![r] = Has(r)]
+    /\ Put(r, "absent")
     /\ Goto(r, Epilogue(kind))
-    /\ Result(r, IF cache = "present" THEN Verdict(r) ELSE "refused")
-    /\ Log([a |-> "GadAtomic", r |-> r, op |-> "getdel", hit |-> (cache = "present")])
-    /\ UNCHANGED <<kind, flav, ticks>>
+    /\ Result(r, IF Has(r) THEN Verdict(r) ELSE "refused")
+    /\ Log([a |-> "GadAtomic", r |-> r, op |-> "getdel", hit |-> Has(r)])
+    /\ UNCHANGED <<kind, flav, ctx, ticks>>
 
 CodeGet(r)     == kind = "code"     /\ GadGet(r)
 CodeDel(r)     == kind = "code"     /\ GadDel(r)
@@ -176,19 +215,19 @@ CodeDeferredDelete(r) ==
     /\ kind = "code"
     /\ \/ pc[r] = "deferred" /\ NotArriving /\ UNCHANGED out
        \/ flav[r] = "early" /\ Arrive(r) /\ Result(r, "refused")
-    /\ cache' = "absent"
+    /\ Put(r, "absent")
     /\ Goto(r, "done")
     /\ Log([a |-> "CodeDeferredDelete", r |-> r, op |-> "delete"])
-    /\ UNCHANGED <<kind, flav, seen, ticks>>
+    /\ UNCHANGED <<kind, flav, ctx, seen, ticks>>
 
 \* validatePresentationNonce: presentations with different nonces -> "burn them all"
 NonceBurn(r) ==
     /\ kind = "vpnonce" /\ flav[r] = "early"
     /\ Arrive(r)
-    /\ cache' = "absent"
+    /\ Put(r, "absent")
     /\ Goto(r, "done") /\ Result(r, "refused")
     /\ Log([a |-> "NonceBurn", r |-> r, op |-> "delete"])
-    /\ UNCHANGED <<kind, flav, seen, ticks>>
+    /\ UNCHANGED <<kind, flav, ctx, seen, ticks>>
 
 (***************************************************************************)
 (* validateS2SPresentationNonce: Get, then Put regardless of the result.   *)
@@ -196,26 +235,26 @@ NonceBurn(r) ==
 S2SGet(r) ==
     /\ kind = "s2snonce" /\ ~AtomicS2SNonce
     /\ Arrive(r)
-    /\ seen' = [seen EXCEPT ![r] = (cache = "present")]
+    /\ seen' = [seen EXCEPT ![r] = Has(r)]
     /\ Goto(r, "put")
-    /\ Log([a |-> "S2SGet", r |-> r, op |-> "get", hit |-> (cache = "present")])
-    /\ UNCHANGED <<kind, flav, cache, out, ticks>>
+    /\ Log([a |-> "S2SGet", r |-> r, op |-> "get", hit |-> Has(r)])
+    /\ UNCHANGED <<kind, flav, ctx, cache, out, ticks>>
 
 S2SPut(r) ==
     /\ kind = "s2snonce" /\ pc[r] = "put"
-    /\ cache' = "present"
+    /\ Put(r, "present")
     /\ Goto(r, "done") /\ Result(r, IF seen[r] THEN "refused" ELSE Verdict(r))
     /\ Log([a |-> "S2SPut", r |-> r, op |-> "set"])
-    /\ NotArriving /\ UNCHANGED <<kind, flav, seen, ticks>>
+    /\ NotArriving /\ UNCHANGED <<kind, flav, ctx, seen, ticks>>
 
 S2SAtomic(r) ==
     /\ kind = "s2snonce" /\ AtomicS2SNonce
     /\ Arrive(r)
-    /\ seen' = [seen EXCEPT ![r] = (cache = "present")]
-    /\ cache' = "present"
-    /\ Goto(r, "done") /\ Result(r, IF cache = "present" THEN "refused" ELSE Verdict(r))
-    /\ Log([a |-> "S2SAtomic", r |-> r, op |-> "testset", hit |-> (cache = "present")])
-    /\ UNCHANGED <<kind, flav, ticks>>
+    /\ seen' = [seen EXCEPT ![r] = Has(r)]
+    /\ Put(r, "present")
+    /\ Goto(r, "done") /\ Result(r, IF Has(r) THEN "refused" ELSE Verdict(r))
+    /\ Log([a |-> "S2SAtomic", r |-> r, op |-> "testset", hit |-> Has(r)])
+    /\ UNCHANGED <<kind, flav, ctx, ticks>>
 
 (***************************************************************************)
 (* ValidateDPoPProof: Get; only on a miss Put.                             *)
@@ -223,28 +262,28 @@ S2SAtomic(r) ==
 JtiGet(r) ==
     /\ kind = "dpopjti" /\ ~AtomicDPoPJti
     /\ Arrive(r)
-    /\ seen' = [seen EXCEPT ![r] = (cache = "present")]
-    /\ IF cache = "present"
+    /\ seen' = [seen EXCEPT ![r] = Has(r)]
+    /\ IF Has(r)
          THEN Goto(r, "done") /\ Result(r, "refused")              \* "jti already used"
          ELSE Goto(r, "put") /\ UNCHANGED out
-    /\ Log([a |-> "JtiGet", r |-> r, op |-> "get", hit |-> (cache = "present")])
-    /\ UNCHANGED <<kind, flav, cache, ticks>>
+    /\ Log([a |-> "JtiGet", r |-> r, op |-> "get", hit |-> Has(r)])
+    /\ UNCHANGED <<kind, flav, ctx, cache, ticks>>
 
 JtiPut(r) ==
     /\ kind = "dpopjti" /\ pc[r] = "put"
-    /\ cache' = "present"
+    /\ Put(r, "present")
     /\ Goto(r, "done") /\ Result(r, "ok")
     /\ Log([a |-> "JtiPut", r |-> r, op |-> "set"])
-    /\ NotArriving /\ UNCHANGED <<kind, flav, seen, ticks>>
+    /\ NotArriving /\ UNCHANGED <<kind, flav, ctx, seen, ticks>>
 
 JtiAtomic(r) ==
     /\ kind = "dpopjti" /\ AtomicDPoPJti
     /\ Arrive(r)
-    /\ seen' = [seen EXCEPT ![r] = (cache = "present")]
-    /\ cache' = "present"
-    /\ Goto(r, "done") /\ Result(r, IF cache = "present" THEN "refused" ELSE "ok")
-    /\ Log([a |-> "JtiAtomic", r |-> r, op |-> "testset", hit |-> (cache = "present")])
-    /\ UNCHANGED <<kind, flav, ticks>>
+    /\ seen' = [seen EXCEPT ![r] = Has(r)]
+    /\ Put(r, "present")
+    /\ Goto(r, "done") /\ Result(r, IF Has(r) THEN "refused" ELSE "ok")
+    /\ Log([a |-> "JtiAtomic", r |-> r, op |-> "testset", hit |-> Has(r)])
+    /\ UNCHANGED <<kind, flav, ctx, ticks>>
 
 (***************************************************************************)
 (* OpenID4VCI pre-authorized code: openidMemoryStore.FindByReference =     *)
@@ -254,37 +293,37 @@ JtiAtomic(r) ==
 PreExists(r) ==
     /\ kind = "preauth" /\ ~AtomicPreAuthCode
     /\ Arrive(r)
-    /\ seen' = [seen EXCEPT ![r] = (cache = "present")]
-    /\ IF cache = "present"
+    /\ seen' = [seen EXCEPT ![r] = Has(r)]
+    /\ IF Has(r)
          THEN Goto(r, "get") /\ UNCHANGED out
          ELSE Goto(r, "done") /\ Result(r, "refused")              \* "unknown pre-authorized code"
-    /\ Log([a |-> "PreExists", r |-> r, op |-> "get", hit |-> (cache = "present")])
-    /\ UNCHANGED <<kind, flav, cache, ticks>>
+    /\ Log([a |-> "PreExists", r |-> r, op |-> "get", hit |-> Has(r)])
+    /\ UNCHANGED <<kind, flav, ctx, cache, ticks>>
 
 PreGet(r) ==
     /\ kind = "preauth" /\ pc[r] = "get"
-    /\ seen' = [seen EXCEPT ![r] = (cache = "present")]
-    /\ IF cache = "present"
+    /\ seen' = [seen EXCEPT ![r] = Has(r)]
+    /\ IF Has(r)
          THEN Goto(r, "del") /\ UNCHANGED out
          ELSE Goto(r, "done") /\ Result(r, "refused")              \* ErrNotFound from refStore.Get
-    /\ Log([a |-> "PreGet", r |-> r, op |-> "get", hit |-> (cache = "present")])
-    /\ NotArriving /\ UNCHANGED <<kind, flav, cache, ticks>>
+    /\ Log([a |-> "PreGet", r |-> r, op |-> "get", hit |-> Has(r)])
+    /\ NotArriving /\ UNCHANGED <<kind, flav, ctx, cache, ticks>>
 
 PreDel(r) ==
     /\ kind = "preauth" /\ pc[r] = "del"
-    /\ cache' = "absent"
+    /\ Put(r, "absent")
     /\ Goto(r, "done") /\ Result(r, "ok")
     /\ Log([a |-> "PreDel", r |-> r, op |-> "delete"])
-    /\ NotArriving /\ UNCHANGED <<kind, flav, seen, ticks>>
+    /\ NotArriving /\ UNCHANGED <<kind, flav, ctx, seen, ticks>>
 
 PreAtomic(r) ==
     /\ kind = "preauth" /\ AtomicPreAuthCode
     /\ Arrive(r)
-    /\ seen' = [seen EXCEPT ![r] = (cache = "present")]
-    /\ cache' = "absent"
-    /\ Goto(r, "done") /\ Result(r, IF cache = "present" THEN "ok" ELSE "refused")
-    /\ Log([a |-> "PreAtomic", r |-> r, op |-> "getdel", hit |-> (cache = "present")])
-    /\ UNCHANGED <<kind, flav, ticks>>
+    /\ seen' = [seen EXCEPT ![r] = Has(r)]
+    /\ Put(r, "absent")
+    /\ Goto(r, "done") /\ Result(r, IF Has(r) THEN "ok" ELSE "refused")
+    /\ Log([a |-> "PreAtomic", r |-> r, op |-> "getdel", hit |-> Has(r)])
+    /\ UNCHANGED <<kind, flav, ctx, ticks>>
 
 (***************************************************************************)
 (* Time.  For an entry kind Tick = "the TTL of the entry elapses" (gocache *)
@@ -296,9 +335,9 @@ Tick ==
     /\ ticks < MaxTick
     /\ \E r \in Reqs : ~Done(r)
     /\ ticks' = ticks + 1
-    /\ cache' = IF kind \in EntryKinds \/ ~MarkerOutlivesWindow THEN "absent" ELSE cache
+    /\ cache' = IF kind \in EntryKinds \/ ~MarkerOutlivesWindow THEN [c \in AllCtx |-> "absent"] ELSE cache
     /\ Log([a |-> "Tick"])
-    /\ NotArriving /\ UNCHANGED <<kind, flav, pc, seen, out>>
+    /\ NotArriving /\ UNCHANGED <<kind, flav, ctx, pc, seen, out>>
 
 Step(r) ==
     \/ CodeGet(r) \/ CodeDel(r) \/ CodeDeferredDelete(r)
@@ -322,7 +361,9 @@ Terminal == \A r \in Reqs : Done(r)
 TypeOK ==
     /\ kind \in AllKinds
     /\ flav \in [Reqs -> {"good", "bad", "early"}]
-    /\ cache \in {"present", "absent"}
+    /\ ctx \in [Reqs -> AllCtx]
+    /\ cache \in [AllCtx -> {"present", "absent"}]
+    /\ KeyedByValueOnly => cache["c1"] = "absent"
     /\ pc \in [Reqs -> {"idle", "gad", "deferred", "put", "get", "del", "done"}]
     /\ out \in [Reqs -> {"pending", "ok", "refused"}]
     /\ \A r \in Reqs : Done(r) => out[r] # "pending"
